@@ -31,6 +31,40 @@ DELIMS = {'list': ('[', ']'), 'tuple': ('(', ')'), 'set': ('{', '}')}
 NEED = ['int', 'float', 'bool', 'type(None)', 'type(...)', 'str', 'bytes', 'list', 'tuple', 'set', 'frozenset', 'dict']
 
 
+def _guarded_by_homogeneity_test(repo, f, call):
+    """the call is dominated by a positive test that calls a module-level predicate P(x); P, interpreted on concrete dicts / lists whose
+    elements cannot all be ordered with < (str and int, None and int, tuple and str, two complex numbers, bool and str), answers
+    False for each of them and True for plain strs and for plain ints"""
+    from engine.astutil import Guards
+    from engine.interp import Interp, DictV, ListV, Raised, PathLimit
+    g = Guards(f.node)
+    preds = []
+    for ff in g.of(call):
+        if not ff.pol:
+            continue
+        for x in ast.walk(ff.test):
+            if isinstance(x, ast.Call) and isinstance(x.func, ast.Name) and x.func.id in f.module.funcs and len(x.args) == 1:
+                preds.append(f.module.funcs[x.func.id])
+    for p_ in preds:
+        bad_sets = [['a', 1], [None, 1], [(1,), 'x'], [1j, 2j], [True, 'a'], [b'a', 'a'], [1.5, 'a'], [None, ()]]
+        good_sets = [['a', 'b'], [2, 1]]
+        try:
+            def answer(keys):
+                it = Interp(repo, {}, max_paths=4)
+                it.concrete_context = True
+                it.eager_generators = {q.name for q in f.module.funcs.values()}
+                d = DictV([(Const(k), Const(0)) for k in keys])
+                prs = it.explore(p_, [d], {})
+                if len(prs) != 1 or prs[0].raised is not None or not isinstance(prs[0].value, Const):
+                    raise Undecided('predicate not decided')
+                return bool(prs[0].value.v)
+            if all(answer(k) is False for k in bad_sets) and all(answer(k) is True for k in good_sets):
+                return True
+        except (Undecided, Raised, PathLimit, AnalysisError):
+            continue
+    return False
+
+
 def total_order_only(repo, rep, rule):
     """The elements of a user's container are ordered only through the always-sortable key: ``sorted`` / ``min`` / ``max`` / ``.sort``
     over data drawn from the value being printed raise TypeError as soon as two elements cannot be compared (str and int, None and a
@@ -76,6 +110,12 @@ def total_order_only(repo, rep, rule):
             n += 1
             key = next((k.value for k in c.keywords if k.arg == 'key'), None)
             ok = key is not None and src(key).split('.')[-1] == sortable
+            if not ok and key is None and _guarded_by_homogeneity_test(repo, f, c):
+                # dominated by a predicate of the module that - interpreted on dicts with keys of mixed and of unorderable types -
+                # lets none of them through: what reaches this sorted() can be ordered with <
+                rep.ok(rule, '%s:orders-user-elements:%s' % (f.qualname, src(target)[:30]), '%s:%d' % (f.module.relpath, c.lineno),
+                       'reached only with keys of one orderable built-in type (guard interpreted on mixed key sets)')
+                continue
             rep.check(ok, rule, '%s:orders-user-elements:%s' % (f.qualname, src(target)[:30]), '%s:%d' % (f.module.relpath, c.lineno),
                       'ordered through the always-sortable key',
                       '%s orders %s with %s(...)%s: elements that cannot be compared with < (str and int, None and a number) make it raise '
